@@ -224,6 +224,25 @@ def check(repo):
                "label-sorting builder classmethod vanished for %s" % sorted(missing))
     r1.require(n_tables >= 7, schemes[0].method("_Enc"), "tables floor", "only %d label-addressed tables found (expected >= 7)" % n_tables)
     r2.require(n_sites >= 8, schemes[0].method("_Enc"), "placement sites floor", "only %d placement sites found (expected >= 8)" % n_sites)
+    # ---------------------------------------------------------------- R6.5 nobody seeds the shared generator
+    r5 = Rule("R6.5", "the process-wide generator of `random` (which places blocks and picks buckets) is never seeded or restored by library code")
+    rules.append(r5)
+    n_mod = 0
+    for rel, m in sorted(repo.modules.items()):
+        if not rel.startswith(("schemes/", "toolkit/", "data_persistence/", "frontend/")):
+            continue
+        n_mod += 1
+        for fi in m.all_functions():
+            for c in ast.walk(fi.node):
+                if isinstance(c, ast.Call) and (dotted(c.func) or "") in ("random.seed", "random.setstate"):
+                    r5.fail_fn(fi, c, "%s in %s" % (dotted(c.func), fi.qual),
+                               "%s calls %s: every later random.sample / random.choice / random.shuffle of the process - the slot permutations of PiPtr, Pi2Lev and SSE-1, the "
+                               "bucket choice and in-bucket order of DP17 - becomes a function of that seed, so two set-ups lay their blocks out identically" % (fi.qual, short(c)))
+        for c in ast.walk(m.tree):
+            if isinstance(c, ast.Call) and (dotted(c.func) or "") in ("random.seed", "random.setstate") and not any(
+                    isinstance(a, (ast.FunctionDef, ast.AsyncFunctionDef)) for a in __import__("sa.model", fromlist=["ancestors"]).ancestors(c)):
+                r5.fail(rel, "<module>", c.lineno, "%s at import" % dotted(c.func), "%s seeds the shared generator at import time (%s)" % (rel, short(c)))
+    r5.ok({"modules": n_mod})
     return rules
 
 
